@@ -184,3 +184,13 @@ chk("C24", MC,
     "back to SAFE-OPERATIONAL, all FMMUs are freed, the kernel program is unregistered (fast), the subprocess is told to stop and "
     "waited for (process-based). Mostly exhaustive exploration of the cancel point (small symbolic part).",
     PY_NOTE, "exhaustive exploration of the cancellation point over the real coroutines on a deterministic event loop", "B:8/C24")
+
+chk("C28", MC,
+    "The real Serial.update runs symbolically over histories of 6-7 (8-10) cycles against an EL6002 handshake model "
+    "(initialisation, toggle request/accept in both directions at once): application writes of symbolic length 1..30 and content "
+    "at engine-chosen cycles, terminal chunks of symbolic length 0..22, accept delays per chunk and direction symbolic. "
+    "Obligations: chunks presented to the terminal are the application's byte stream once and in order, one transmit-request "
+    "toggle per chunk, chunk kept until acknowledged, no new chunk before the acknowledge; every announced chunk is delivered to "
+    "the application exactly once in order with one receive-accept toggle each.",
+    PY_NOTE + " Pipes are byte queues; handshake model written from the EL6002 documentation.",
+    "symbolic execution of the real device code against a nondeterministic handshake model over bounded histories (z3)", "B:8/C28")
